@@ -11,6 +11,7 @@ mod c05;
 mod c06;
 mod c07;
 mod c08;
+mod c09;
 mod c13;
 mod c18;
 mod frames;
@@ -28,6 +29,7 @@ fn table(id: &str) -> Option<(RunFn, ReplayFn)> {
         "C06" => (c06::run, c06::replay),
         "C07" => (c07::run, c07::replay),
         "C08" => (c08::run, c08::replay),
+        "C09" => (c09::run, c09::replay),
         "C13" => (c13::run, c13::replay),
         "C18" => (c18::run, c18::replay),
         _ => return None,
